@@ -364,6 +364,13 @@ class Machine:
             cur = self.invariant(kv, f"after step {self.step} {name}")
             if changed and was_rejected:
                 success_after_reject = True
+            if cur is not None:
+                kinds = {isinstance(x, float) for x in cur[0]}
+                if len(kinds) == 2:
+                    # floats and exact numbers in one vector (convert(int) + a Fraction node + normalize): every further
+                    # argument would have to be built in two number types at once; the history stops here
+                    out.cls("mixed-number-types-stop")
+                    break
         out.nontrivial = nsteps >= 3 and success_after_reject
 
     def apply(self, kv, cur, name, arg):
